@@ -485,7 +485,9 @@ def r4_recorded_once(ctx, rep, R='C17.R4'):
     fr = m.func('runner.Runner.run')
     wr = [c for c in own_calls(fr.node) if isinstance(c.func, ast.Attribute) and
           c.func.attr == 'writeXMLReports']
-    okw = len(wr) == 1 and [(norm(e), p) for e, p in path_literals(wr[0], fr.node)] == \
+    from .common import expander as _exp
+    ex_ = _exp(fr.node, only=lambda v: dotted(v) is not None)
+    okw = len(wr) == 1 and [(norm(ex_(e)), p) for e, p in path_literals(wr[0], fr.node)] == \
         [('self.options.xmlOutput', True)]
     rep.check(oki and okw, R, '--xml: wrapper installed around the chosen formatter; reports written '
               'after the run', 'the XML wrapper is not installed / the reports are not written under '
